@@ -23,6 +23,8 @@ Local Open Scope nat_scope.
 
 (* ---------------------------------------------------------------------------------------------- expressions *)
 Inductive fn := FId | FSig | FAbs | FSign | FExp | FSin | FCos | FTanh.
+(* binary functions: maxi(a, b), mini(a, b) (compiled to the calls maximum / minimum) *)
+Inductive fn2 := FMax | FMin.
 
 (* what one can differentiate with respect to: a variable now, or the state variable v delayed by delay symbol d *)
 Inductive atom := AV (v : nat) | AP (v d : nat).
@@ -42,15 +44,18 @@ Inductive expr (K : Type) :=
 | Mul (a b : expr K)
 | Neg (a : expr K)
 | PowN (a : expr K) (k : nat)
-| Fn (f : fn) (a : expr K).
+| Fn (f : fn) (a : expr K)
+| Fn2 (g : fn2) (a b : expr K).
 Arguments Cst {K}. Arguments At {K}. Arguments Add {K}. Arguments Sub {K}. Arguments Mul {K}. Arguments Neg {K}.
-Arguments PowN {K}. Arguments Fn {K}.
+Arguments PowN {K}. Arguments Fn {K}. Arguments Fn2 {K}.
 
 Record ops (T : Type) := mkops {
   o0 : T; o1 : T; oadd : T -> T -> T; osub : T -> T -> T; omul : T -> T -> T; oopp : T -> T;
-  ofn : fn -> T -> T }.
+  ofn : fn -> T -> T;
+  ofn2 : fn2 -> T -> T -> T;
+  ohalf : T }.        (* the constant 1/2 of the max/min rule; no law is assumed about it *)
 Arguments o0 {T}. Arguments o1 {T}. Arguments oadd {T}. Arguments osub {T}. Arguments omul {T}. Arguments oopp {T}.
-Arguments ofn {T}.
+Arguments ofn {T}. Arguments ofn2 {T}. Arguments ohalf {T}.
 
 Fixpoint kpow {T} (O : ops T) (x : T) (k : nat) : T :=
   match k with 0 => o1 O | S k' => omul O x (kpow O x k') end.
@@ -68,13 +73,14 @@ Fixpoint eval {K T} (O : ops T) (inj : K -> T) (r : atom -> T) (e : expr K) : T 
   | Neg a => oopp O (eval O inj r a)
   | PowN a k => kpow O (eval O inj r a) k
   | Fn f a => ofn O f (eval O inj r a)
+  | Fn2 g a b => ofn2 O g (eval O inj r a) (eval O inj r b)
   end.
 
 Fixpoint occurs {K} (x : atom) (e : expr K) : bool :=
   match e with
   | Cst _ => false
   | At a => atom_eqb a x
-  | Add a b | Sub a b | Mul a b => occurs x a || occurs x b
+  | Add a b | Sub a b | Mul a b | Fn2 _ a b => occurs x a || occurs x b
   | Neg a | PowN a _ | Fn _ a => occurs x a
   end.
 
@@ -83,7 +89,7 @@ Fixpoint has_past {K} (e : expr K) : bool :=
   | Cst _ => false
   | At (AV _) => false
   | At (AP _ _) => true
-  | Add a b | Sub a b | Mul a b => has_past a || has_past b
+  | Add a b | Sub a b | Mul a b | Fn2 _ a b => has_past a || has_past b
   | Neg a | PowN a _ | Fn _ a => has_past a
   end.
 
@@ -93,7 +99,7 @@ Fixpoint polyb {K} (e : expr K) : bool :=
   | Cst _ | At _ => true
   | Add a b | Sub a b | Mul a b => polyb a && polyb b
   | Neg a | PowN a _ => polyb a
-  | Fn _ _ => false
+  | Fn _ _ | Fn2 _ _ _ => false
   end.
 
 (* absv, before fix D51: `_node_to_expr` renames the call to `abs`, `_resolve_derivatives` looked for the name `absv` only: the
@@ -103,7 +109,7 @@ Fixpoint polyb {K} (e : expr K) : bool :=
 Fixpoint has_abs {K} (e : expr K) : bool :=
   match e with
   | Cst _ | At _ => false
-  | Add a b | Sub a b | Mul a b => has_abs a || has_abs b
+  | Add a b | Sub a b | Mul a b | Fn2 _ a b => has_abs a || has_abs b
   | Neg a | PowN a _ => has_abs a
   | Fn f a => match f with FAbs => true | _ => has_abs a end
   end.
@@ -111,7 +117,7 @@ Fixpoint unresolved {K} (x : atom) (e : expr K) : bool :=
   if occurs x e then
     match e with
     | Cst _ | At _ => false
-    | Add a b | Sub a b | Mul a b => unresolved x a || unresolved x b
+    | Add a b | Sub a b | Mul a b | Fn2 _ a b => unresolved x a || unresolved x b
     | Neg a => unresolved x a
     | PowN a k => match k with 0 => false | S _ => unresolved x a end
     | Fn f a => match f with FAbs => true | _ => unresolved x a end
@@ -148,6 +154,25 @@ Definition dfnI {K} (O : ops K) (f : fn) (v : K) : K :=
   | FTanh => osub O (o1 O) (kpow O (ofn O FTanh v) 2)
   end.
 
+(* maxi / mini (fix D112): d/da max(a, b) = [a > b], d/db max(a, b) = [b > a], d/da min(a, b) = [a < b], d/db min(a, b) = [b < a],
+   written as 1/2 * sign(difference) + 1/2: value 1/2 at a tie a = b (the symmetric sub-gradient).  `first` selects the argument. *)
+Definition step_of {K} (O : ops K) (d : expr K) : expr K := Add (Mul (Cst (ohalf O)) (Fn FSign d)) (Cst (ohalf O)).
+Definition dfn2 {K} (O : ops K) (g : fn2) (first : bool) (a b : expr K) : expr K :=
+  match g, first with
+  | FMax, true => step_of O (Sub a b)
+  | FMax, false => step_of O (Sub b a)
+  | FMin, true => step_of O (Sub b a)
+  | FMin, false => step_of O (Sub a b)
+  end.
+Definition stepI {K} (O : ops K) (d : K) : K := oadd O (omul O (ohalf O) (ofn O FSign d)) (ohalf O).
+Definition dfn2I {K} (O : ops K) (g : fn2) (first : bool) (u v : K) : K :=
+  match g, first with
+  | FMax, true => stepI O (osub O u v)
+  | FMax, false => stepI O (osub O v u)
+  | FMin, true => stepI O (osub O v u)
+  | FMin, false => stepI O (osub O u v)
+  end.
+
 (* symbolic derivative with respect to the atom x.  `occurs x e = false -> 0` mirrors sympy returning the literal 0
    for an expression free of x (which is what `if d != 0` tests before an entry is stored); likewise a factor free of x is
    carried along undifferentiated, so that `has_past (D e x)` says whether the printed entry still names a past symbol. *)
@@ -166,6 +191,9 @@ Fixpoint D {K} (O : ops K) (e : expr K) (x : atom) : expr K :=
                   | S k' => Mul (Mul (Cst (ofnat O k)) (PowN a k')) (D O a x)
                   end
     | Fn f a => Mul (dfn O f a) (D O a x)
+    | Fn2 g a b => if occurs x a then (if occurs x b then Add (Mul (dfn2 O g true a b) (D O a x)) (Mul (dfn2 O g false a b) (D O b x))
+                                      else Mul (dfn2 O g true a b) (D O a x))
+                   else Mul (dfn2 O g false a b) (D O b x)
     end
   else Cst (o0 O).
 
@@ -177,7 +205,10 @@ Definition dual_ops {K} (O : ops K) : ops (K * K) :=
      osub := fun p q => (osub O (fst p) (fst q), osub O (snd p) (snd q));
      omul := fun p q => (omul O (fst p) (fst q), oadd O (omul O (snd p) (fst q)) (omul O (fst p) (snd q)));
      oopp := fun p => (oopp O (fst p), oopp O (snd p));
-     ofn := fun f p => (ofn O f (fst p), omul O (dfnI O f (fst p)) (snd p)) |}.
+     ofn := fun f p => (ofn O f (fst p), omul O (dfnI O f (fst p)) (snd p));
+     ofn2 := fun g p q => (ofn2 O g (fst p) (fst q),
+                           oadd O (omul O (dfn2I O g true (fst p) (fst q)) (snd p)) (omul O (dfn2I O g false (fst p) (fst q)) (snd q)));
+     ohalf := (ohalf O, o0 O) |}.
 Definition dinj {K} (O : ops K) (c : K) : K * K := (c, o0 O).
 (* the point r with tangent direction "x" *)
 Definition seed {K} (O : ops K) (r : atom -> K) (x : atom) : atom -> K * K :=
@@ -223,6 +254,7 @@ Fixpoint subst {K} (e : expr K) (m : nat) (a : expr K) : expr K :=
   | Neg p => Neg (subst p m a)
   | PowN p k => PowN (subst p m a) k
   | Fn f p => Fn f (subst p m a)
+  | Fn2 g p q => Fn2 g (subst p m a) (subst q m a)
   end.
 (* _expand_non_de: all intermediates replaced by their definitions (later ones first, so that one pass suffices) *)
 Fixpoint expand {K} (l : list (nat * expr K)) (e : expr K) : expr K :=
@@ -237,7 +269,7 @@ Fixpoint past_atoms {K} (e : expr K) : list (nat * nat) :=
   | Cst _ => []
   | At (AV _) => []
   | At (AP v d) => [(v, d)]
-  | Add a b | Sub a b | Mul a b => past_atoms a ++ past_atoms b
+  | Add a b | Sub a b | Mul a b | Fn2 _ a b => past_atoms a ++ past_atoms b
   | Neg a | PowN a _ | Fn _ a => past_atoms a
   end.
 Definition pair_eqb (p q : nat * nat) : bool := (fst p =? fst q) && (snd p =? snd q).
@@ -385,13 +417,18 @@ Definition Qc_fn (f : fn) (v : Qc) : Qc :=
   | FCos => (1 - v * v * mkq 1 2)%Qc
   | FTanh => (v * mkq 1 4)%Qc
   end.
-Definition QcO : ops Qc := mkops Qc 0%Qc 1%Qc Qcplus Qcminus Qcmult Qcopp Qc_fn.
+Definition Qc_fn2 (g : fn2) (u v : Qc) : Qc :=
+  match g with
+  | FMax => if Qle_bool (this u) (this v) then v else u
+  | FMin => if Qle_bool (this u) (this v) then u else v
+  end.
+Definition QcO : ops Qc := mkops Qc 0%Qc 1%Qc Qcplus Qcminus Qcmult Qcopp Qc_fn Qc_fn2 (mkq 1 2).
 
 (* everything is executable with the stand-ins (kept as a guard of the correspondence run) *)
 Fixpoint execb {K} (e : expr K) : bool :=
   match e with
   | Cst _ | At _ => true
-  | Add a b | Sub a b | Mul a b => execb a && execb b
+  | Add a b | Sub a b | Mul a b | Fn2 _ a b => execb a && execb b
   | Neg a | PowN a _ => execb a
   | Fn f a => execb a
   end.
